@@ -41,7 +41,7 @@ class Sub:
     (callable(tier) -> iterable of cases; finite, split across workers by index)."""
 
     def __init__(self, name, evaluate, strategy=None, enumerate=None, quick=300, thorough=4000,
-                 shards_quick=4, shards_thorough=16, rule='', exhaustive_note=None):
+                 shards_quick=8, shards_thorough=16, rule='', exhaustive_note=None):
         self.name = name
         self.evaluate = evaluate
         self.strategy = strategy
@@ -265,6 +265,66 @@ def load_known():
     return json.load(open(p)).get('findings', [])
 
 
+# ---------------------------------------------------------------- coverage-guided fuzzing (thorough tier)
+VT_PY = '/opt/veriftools/pyvenv/bin/python'
+
+
+def run_fuzz(pid, mod, seed):
+    """Runs the atheris targets declared by the module (mod.FUZZ) as parallel libFuzzer campaigns: half of them from an
+    empty corpus, half from the module's seed inputs.  Returns (fails, summary)."""
+    import subprocess, shutil
+    specs = getattr(mod, 'FUZZ', [])
+    if not specs:
+        return [], None
+    if not os.path.exists(VT_PY):
+        return [], {'atheris': 'unavailable (no tooling venv)'}
+    probe = subprocess.run([VT_PY, '-c', 'import atheris, hypothesis'], capture_output=True)
+    if probe.returncode != 0:
+        return [], {'atheris': 'unavailable (import failed)'}
+    work = os.path.join(OUT, '.work', 'fuzz', pid)
+    shutil.rmtree(work, ignore_errors=True)
+    procs = []
+    for sp in specs:
+        for sh in range(sp.get('shards', 4)):
+            od = os.path.join(work, sp['sub'], 'out%d' % sh)
+            cd = os.path.join(work, sp['sub'], 'corpus%d' % sh)
+            os.makedirs(od)
+            os.makedirs(cd)
+            seeded = sh % 2 == 1
+            if seeded:
+                for i, b in enumerate(sp.get('seeds', [])):
+                    open(os.path.join(cd, 'seed%d' % i), 'wb').write(b)
+            env = dict(os.environ, PYTHONHASHSEED='0', PYTHONDONTWRITEBYTECODE='1')
+            cmd = [VT_PY, os.path.join(VERIF, 'fuzz', 'target.py'), pid, sp['sub'], od, '-runs=%d' % sp['runs'],
+                   '-seed=%d' % (seed * 100 + sh + 1), '-max_len=%d' % sp.get('max_len', 48), '-print_final_stats=0', cd]
+            procs.append((sp, sh, seeded, od, subprocess.Popen(cmd, stdout=subprocess.DEVNULL, stderr=subprocess.DEVNULL, env=env)))
+    fails = []
+    summary = {'atheris': 'ok', 'campaigns': []}
+    for sp, sh, seeded, od, pr in procs:
+        try:
+            rc = pr.wait(timeout=sp.get('timeout', 1500))
+            trunc = False
+        except Exception:
+            pr.kill()
+            rc = None
+            trunc = True
+        st = {}
+        try:
+            st = json.load(open(os.path.join(od, 'stats.json')))
+        except Exception:
+            pass
+        summary['campaigns'].append({'sub': sp['sub'], 'shard': sh, 'corpus': 'seeded' if seeded else 'empty', 'exit': rc, 'truncated': trunc,
+                                     'execs': st.get('execs', 0), 'distinct_nontrivial': st.get('nontrivial', 0), 'fails': st.get('fails', 0),
+                                     'samples': st.get('samples', [])[:2]})
+        fp = os.path.join(od, 'fails.jsonl')
+        if os.path.exists(fp):
+            for line in open(fp):
+                r = json.loads(line)
+                fails.append(('fuzz:' + r['sub'], r['bucket'], r['case'], r['msg']))
+    shutil.rmtree(work, ignore_errors=True)
+    return fails, summary
+
+
 # ---------------------------------------------------------------- main driver
 
 def run_property(pid, tier, seed, replay=None, only_sub=None, scale=1.0):
@@ -331,13 +391,17 @@ def run_property(pid, tier, seed, replay=None, only_sub=None, scale=1.0):
         else:
             ns = s.shards_quick if tier == 'quick' else s.shards_thorough
             n = s.quick if tier == 'quick' else s.thorough
-            n = max(1, int(n * scale))
+            n = max(1, int(n * scale * (getattr(mod, 'QUICK_SCALE', 2.0) if tier == 'quick' else 1.0)))
             for sh in range(ns):
                 jobs.append((pid, s.name, sh, ns, n, seed, tier))
     ctx = multiprocessing.get_context('fork')
     nproc = int(os.environ.get('VERIF_PROCS', '16'))
     with ctx.Pool(min(nproc, max(1, len(jobs)))) as pool:
         results = pool.map(_job, jobs, chunksize=1)
+
+    fuzz_fails, fuzz_summary = ([], None)
+    if tier == 'thorough' and not only_sub:
+        fuzz_fails, fuzz_summary = run_fuzz(pid, mod, seed)
 
     herr = [r for r in results if 'harness_error' in r]
     if herr:
@@ -380,6 +444,9 @@ def run_property(pid, tier, seed, replay=None, only_sub=None, scale=1.0):
                     continue
             violations.append((sname, b, f['case'], f['msg']))
 
+    for fsub, b, case, msg in fuzz_fails:
+        violations.append((fsub.split(':', 1)[1], b, case, 'found by atheris: ' + msg))
+
     # shrink + write replays
     rep_dir = os.path.join(OUT, 'replays', pid)
     vio_lines = []
@@ -408,7 +475,7 @@ def run_property(pid, tier, seed, replay=None, only_sub=None, scale=1.0):
         print('  sub=%s bucket=%s: %s' % (sname, b, (m2[0] if m2 else msg)[:300]))
 
     # evidence
-    evals = sum(a['evals'] for a in per_sub.values()) + corpus_n
+    evals = sum(a['evals'] for a in per_sub.values()) + corpus_n + (sum(c['execs'] for c in fuzz_summary['campaigns']) if fuzz_summary and 'campaigns' in fuzz_summary else 0)
     nontriv = sum(len(a['nontrivial']) for a in per_sub.values())
     samples = []
     for sname, a in per_sub.items():
@@ -428,6 +495,7 @@ def run_property(pid, tier, seed, replay=None, only_sub=None, scale=1.0):
                              wall_s=round(a['wall'], 2), rule=subs[k].rule)
                      for k, a in per_sub.items()},
             corpus_replayed=corpus_n,
+            coverage_guided_fuzzing=fuzz_summary,
             excluded_by_known=dict(excluded_known),
             known_findings_reported=known_lines,
         ),
